@@ -296,3 +296,32 @@ func (w *World) paramNames(c *Contract, fn *types.Func) paramNameSet {
 	}
 	return ps
 }
+
+// pureContract finds a `pure` contract by the name used in specs: "F", "T.M", "pkg.F", "pkg.T.M".
+func (w *World) pureContract(pkgPath, name string) *Contract {
+	try := func(pkg, n string) *Contract {
+		if c, ok := w.Contracts[contractKey(pkg, n)]; ok && c.Pure {
+			return c
+		}
+		if i := strings.Index(n, "."); i >= 0 {
+			if c, ok := w.Contracts[pkg+".(*"+n[:i]+")"+n[i:]]; ok && c.Pure {
+				return c
+			}
+		}
+		return nil
+	}
+	if c := try(pkgPath, name); c != nil {
+		return c
+	}
+	if i := strings.Index(name, "."); i >= 0 {
+		q, rest := name[:i], name[i+1:]
+		for path := range w.Pkgs {
+			if path == q || strings.HasSuffix(path, "/"+q) {
+				if c := try(path, rest); c != nil {
+					return c
+				}
+			}
+		}
+	}
+	return nil
+}
